@@ -13,6 +13,9 @@ fn main() {
         let p = |i: usize| args[i].parse::<u64>().unwrap_or(0);
         std::process::exit(vh::c14pool::shard_main(tier, p(3), p(4) as usize, p(5) as usize));
     }
+    if id == "c12worker" {
+        std::process::exit(vh::c12::worker_main());
+    }
     if id == "serve" {
         std::process::exit(vh::c06::serve(&args[2]));
     }
@@ -41,6 +44,9 @@ fn main() {
             "C05" => vh::c05::replay(&ctx, &w),
             "C06" => vh::c06::replay(&ctx, &w),
             "C07" => vh::c07::replay(&ctx, &w),
+            "C10" => vh::c10::replay(&ctx, &w),
+            "C11" => vh::c11::replay(&ctx, &w),
+            "C12" => vh::c12::replay(&ctx, &w),
             "C13" => vh::c13::replay(&ctx, &w),
             "C14" => vh::c14::replay(&ctx, &w),
             "C15" => vh::c15::replay(&ctx, &w),
@@ -59,6 +65,9 @@ fn main() {
             "C05" => vh::c05::main(&ctx),
             "C06" => vh::c06::main(&ctx),
             "C07" => vh::c07::main(&ctx),
+            "C10" => vh::c10::main(&ctx, std::env::var("VERIF_REPO_BIN").ok()),
+            "C11" => vh::c11::main(&ctx),
+            "C12" => vh::c12::main(&ctx),
             "C13" => vh::c13::main(&ctx),
             "C14" => vh::c14::main(&ctx),
             "C15" => vh::c15::main(&ctx),
